@@ -222,8 +222,10 @@ def main():
     ev = {'property_id': a.prop, 'tier': tier, 'seed': seed, 'level': level, 'coverage': coverage,
           'assumptions': spec.get('assumptions', []) + [f'external: {e}' for e in externals],
           'wall_s': round(wall, 2), 'violations': len(new)}
-    os.makedirs(os.path.join(VERIF, 'evidence'), exist_ok=True)
-    with open(os.path.join(VERIF, 'evidence', f'{a.prop}.json'), 'w') as f:
+    # runs against a scratch copy of the repository (mutation / seeded self-tests) never touch the real evidence
+    evdir = os.path.join(VERIF, 'evidence' if not os.environ.get('VERIF_REPO') else '.scratch/evidence')
+    os.makedirs(evdir, exist_ok=True)
+    with open(os.path.join(evdir, f'{a.prop}.json'), 'w') as f:
         json.dump(ev, f, indent=1, default=str)
     print(f'{a.prop} [{tier}] functions={len(results)} obligations={n_obl} discharged={n_dis} known-finding-refutations={len(known)} '
           f'new-refutations={len(new)} undecided={len(undecided)} engine-errors={len(errors)} wall={wall:.1f}s')
